@@ -60,11 +60,45 @@ def columns_vs_core(tier, seed):
         (columns.Map(columns.Text, columns.BigInt), cqltypes.MapType.apply_parameters([cqltypes.UTF8Type, cqltypes.LongType]), [{}, {'a': 1}, {'z': -2 ** 40, 'a': 7}]),
         (columns.Tuple(columns.Integer, columns.Text), cqltypes.TupleType.apply_parameters([cqltypes.Int32Type, cqltypes.UTF8Type]), [(1, 'a'), (None, 'x'), (5, None)]),
     ]
+    # a user-defined type with temporal fields (values that to_database converts), nested in a list as well
+    from cassandra.cqlengine import usertype
+
+    class verif_c36_udt(usertype.UserType):
+        __type_name__ = 'verif_c36_udt'
+        day = columns.Date()
+        n = columns.Integer()
+        at = columns.DateTime()
+        days = columns.List(columns.Date)
+    core_udt = cqltypes.UserType.make_udt_class('ks', 'verif_c36_udt', ('day', 'n', 'at', 'days'),
+                                                (cqltypes.SimpleDateType, cqltypes.Int32Type, cqltypes.DateType, cqltypes.ListType.apply_parameters([cqltypes.SimpleDateType])))
+
+    def udts():
+        for _ in range(max(6, N // 10)):
+            d = datetime.date.fromordinal(rng.randrange(1, 3652059))
+            yield verif_c36_udt(day=d, n=rng.randrange(-2 ** 31, 2 ** 31), at=epoch + datetime.timedelta(milliseconds=rng.randrange(-10 ** 12, 10 ** 13)),
+                                days=[datetime.date.fromordinal(rng.randrange(1, 3652059)) for _i in range(rng.randrange(0, 3))])
+        yield verif_c36_udt(day=datetime.date(1969, 12, 22), n=None, at=None, days=None)
+    cases.append((columns.UserDefinedType(verif_c36_udt), core_udt, udts()))
     for col, ctype, values in cases:
         col.column_name = 'c'
         for v in values:
             n += 1
-            seen.add((type(col).__name__, repr(v)))
+            seen.add((type(col).__name__, repr(v) if not isinstance(v, usertype.UserType) else repr(sorted(v.items()))))
+            if isinstance(v, usertype.UserType):
+                # stored twice (a row that is read, kept and saved again): the same bytes both times, the caller's object left as it was
+                try:
+                    want = core_udt.serialize((v.day, v.n, v.at, v.days), 4)
+                    before = [(k, repr(x)) for k, x in v.items()]
+                    first = ctype.serialize(col.to_database(v), 4)
+                    after = [(k, repr(x)) for k, x in v.items()]
+                    second = ctype.serialize(col.to_database(v), 4)
+                except Exception as e:
+                    fails.append('UserDefinedType value %r: %r' % (sorted(v.items()), e))
+                    continue
+                if first != want or second != want or before != after:
+                    fails.append('UserDefinedType %r: first save stores %s, second save %s, the core driver encodes %s; the caller\'s object %s' %
+                                 (before, first.hex(), second.hex(), want.hex(), 'was left alone' if before == after else 'was changed to %r' % (after,)))
+                continue
             try:
                 via = ctype.serialize(col.to_database(v), 4)
                 core_v = v
